@@ -80,10 +80,10 @@ Theorem C02_atropos_is_graph_root : forall cap eb i e u bl st',
   J i -> elinv (i_st i) -> V (i_st i) -> guard i e true = None ->
   wf_new (length (l_vals (i_st i))) (l_idx (i_st i)) (vev (l_vals (i_st i)) e) ->
   process cap eb (aput (a_id e) e (i_es i)) (i_st i) e = (Ok u, bl, st') ->
-  forall b, In b bl -> b_atropos b <> 0 ->
+  forall b, In b bl ->
     exists e0, (e0 = e \/ In e0 (acc_events i)) /\ a_id e0 = b_atropos b /\
                spf_in (aput (a_id e) e (i_es i)) e0 < b_frame b <= a_frame e0.
-Proof. intros cap eb i e u bl st' HJ HI HV G W E b Hb Hz. exact (proj1 (accepted_blocks_graph cap eb i e u bl st' HJ HI HV G W E b Hb Hz)). Qed.
+Proof. intros cap eb i e u bl st' HJ HI HV G W E b Hb. exact (proj1 (accepted_blocks_graph cap eb i e u bl st' HJ HI HV G W E b Hb)). Qed.
 (* the root table = graph root slots, as an invariant of every run *)
 Theorem C02_root_table_is_graph_slots : forall i, J i -> forall r,
   In r (l_roots (i_st i)) <->
